@@ -133,7 +133,7 @@ Proof.
   assert (Hep : escaped_path (u_path u) "" = D).
   { unfold escaped_path. simpl. rewrite (proj2 (String.eqb_neq _ _) Hstar). exact HD. }
   unfold expected_path, original_path, cfg_add, cfg_strip in *. rewrite Hon. fold D.
-  unfold create_url_fx. destruct (b_rw (r_backend r)) as [rw|].
+  unfold create_url_q. destruct (b_rw (r_backend r)) as [rw|].
   - set (raw' := rw_add rw ++ strip_prefix (rw_cut rw) D).
     assert (HvD : valid_encoded D = true) by (rewrite <- HD; apply escape_valid).
     assert (HwD : wellformed D = true) by (rewrite <- HD; apply escape_wellformed).
@@ -142,7 +142,7 @@ Proof.
     assert (Hwr : wellformed raw' = true).
     { unfold raw'. apply wellformed_app; [exact Hwa | apply strip_prefix_wellformed; exact HwD]. }
     destruct (wellformed_unescape _ Hwr) as [p' Hp'].
-    unfold wire_path, rewrite_fx. cbn [u_path u_rawpath]. rewrite Hep, transform_path_eq. fold raw'.
+    unfold wire_path, rewrite_q. cbn [u_path u_rawpath]. rewrite Hep, transform_path_eq. fold raw'.
     unfold unescape_or_empty. rewrite Hp'. simpl is_empty. cbv iota.
     destruct (String.eqb p' raw') eqn:Eq.
     + (* no escape in the transformed path: RawPath stays empty, the path is re-encoded *)
@@ -172,6 +172,9 @@ Qed.
 
 Lemma list_eqb_refl l : list_eqb String.eqb l l = true.
 Proof. induction l as [|x r IH]; [reflexivity|]. simpl. rewrite String.eqb_refl. exact IH. Qed.
+
+Lemma leq_refl l : leq l l = true.
+Proof. apply list_eqb_refl. Qed.
 
 Lemma valid_no_qmark_b : forall c, implb (valid_byte c) (negb (Ascii.eqb "?" c)) = true.
 Proof. by_ascii. Qed.
@@ -203,17 +206,262 @@ Proof.
   rewrite Hf in H. unfold has_enc_slash in *. destruct (contains "%2F" (u_rawpath u)); [discriminate | reflexivity].
 Qed.
 
-(** the query sentence, for the repaired RemoveFrom *)
-Lemma query_removed_holds names q : query_removed names q (remove_from_fx true names q) = true.
+(** ** the query sentence *)
+
+Lemma kept_settings_raw names q : kept_settings names q = remove_from_raw names q.
 Proof.
-  unfold query_removed. destruct (is_nil names || is_empty q) eqn:E.
-  - rewrite query_untouched; [apply String.eqb_refl|].
-    apply orb_true_iff in E as [E|E]; [left; destruct names; [reflexivity | discriminate] | right; destruct q; [reflexivity | discriminate]].
-  - apply orb_false_iff in E as [E1 E2]. apply forallb_forall. intros k _.
-    rewrite remove_from_spec.
-    + apply list_eqb_refl.
-    + destruct names; [discriminate | discriminate].
-    + destruct q; [discriminate | discriminate].
+  unfold kept_settings, remove_from_raw. f_equal. apply filter_ext. intro s0.
+  unfold setting_named, keep_pair, mem_str. destruct (query_unescape (fst (cut_on "=" s0))); reflexivity.
+Qed.
+
+(** the strict query sentence holds when RemoveFrom works setting by setting
+    (fixes/C15-F6.diff), and before that outside C15-F6 *)
+Lemma query_clause_holds m names q :
+  qf1 m = true -> (qf6 m = true \/
+    (negb (is_nil names) && negb (is_empty q) && negb (snd (parse_query q)) &&
+     negb (String.eqb (values_encode (del_all names (fst (parse_query q)))) (kept_settings names q))) = false) ->
+  query_clause names q (remove_from_q m names q) = true.
+Proof.
+  intros H1 H6. unfold query_clause, remove_from_q. rewrite (orb_comm (is_empty q)).
+  destruct (is_nil names || is_empty q) eqn:E; [apply String.eqb_refl|].
+  apply orb_false_iff in E as [En Eq]. rewrite kept_settings_raw.
+  destruct (qf6 m) eqn:E6; [apply String.eqb_refl|]. destruct H6 as [H6|H6]; [discriminate|].
+  rewrite En, Eq in H6. simpl in H6. rewrite H1.
+  destruct (parse_query q) as [vals err]. simpl in H6. destruct err; [apply String.eqb_refl|].
+  simpl in H6. apply negb_false_iff in H6. rewrite kept_settings_raw in H6. exact H6.
+Qed.
+
+(** ** the header sentences *)
+
+Lemma contains_here t r : contains t (t ++ r) = true.
+Proof.
+  assert (H : has_prefix t (t ++ r) = true).
+  { induction t as [|c t IH]; [destruct r; reflexivity|]. simpl. rewrite Ascii.eqb_refl. exact IH. }
+  destruct (t ++ r); simpl in *; rewrite H; reflexivity.
+Qed.
+
+Lemma contains_app_r t p s : contains t s = true -> contains t (p ++ s) = true.
+Proof.
+  intro H. induction p as [|c p IH]; [exact H|]. simpl. rewrite IH. apply orb_true_r.
+Qed.
+
+Lemma has_prefix_app t s r : has_prefix t s = true -> has_prefix t (s ++ r) = true.
+Proof.
+  revert s. induction t as [|c t IH]; intros s H; [destruct (s ++ r); reflexivity|].
+  destruct s as [|d s]; [discriminate|]. simpl in *. apply andb_true_iff in H as [H1 H2].
+  rewrite H1. apply IH. exact H2.
+Qed.
+
+Lemma contains_app_l t s r : contains t s = true -> contains t (s ++ r) = true.
+Proof.
+  induction s as [|c s IH]; intro H.
+  - simpl in H. rewrite orb_false_r in H. destruct t; [|discriminate]. destruct r; reflexivity.
+  - simpl in H. apply orb_true_iff in H as [H|H].
+    + simpl. change (String c (s ++ r)) with (String c s ++ r). rewrite (has_prefix_app _ _ r H). reflexivity.
+    + simpl. rewrite (IH H). apply orb_true_r.
+Qed.
+
+Definition in_cookie_field (t v : string) : bool := contains t v.
+
+Lemma join_cookies_prefix cs : forall base, exists suffix, join_cookies base cs = base ++ suffix.
+Proof.
+  induction cs as [|c r IH]; intro base; [exists ""; rewrite append_nil_r; reflexivity|].
+  cbn [join_cookies].
+  destruct (IH (if is_empty base then cookie_text c else base ++ "; " ++ cookie_text c)) as [sfx H]. rewrite H.
+  destruct (is_empty base) eqn:E.
+  - destruct base; [|discriminate]. exists (cookie_text c ++ sfx). reflexivity.
+  - exists ("; " ++ cookie_text c ++ sfx). rewrite !append_assoc. reflexivity.
+Qed.
+
+Lemma join_cookies_contains cs : forall base c, In c cs -> contains (cookie_text c) (join_cookies base cs) = true.
+Proof.
+  induction cs as [|c0 r IH]; intros base c Hin; [destruct Hin|]. cbn [join_cookies].
+  destruct Hin as [Heq|Hin]; [subst c0 | apply IH; exact Hin].
+  set (base' := if is_empty base then cookie_text c else base ++ "; " ++ cookie_text c).
+  destruct (join_cookies_prefix r base') as [sfx H]. rewrite H. apply contains_app_l.
+  unfold base'. destruct (is_empty base).
+  - rewrite <- (append_nil_r (cookie_text c)) at 2. apply contains_here.
+  - apply contains_app_r. apply contains_app_r. rewrite <- (append_nil_r (cookie_text c)) at 2. apply contains_here.
+Qed.
+
+Lemma in_insert_cookie e l x : In x (insert_cookie e l) <-> x = e \/ In x l.
+Proof.
+  induction l as [|e' r IH]; simpl; [split; intros [H|H]; auto|].
+  destruct (String.leb (fst e) (fst e')); simpl.
+  - split; intros [H|H]; auto.
+  - rewrite IH. split; intros [H|[H|H]]; auto.
+Qed.
+
+Lemma in_sort_cookies l x : In x (sort_cookies l) <-> In x l.
+Proof.
+  unfold sort_cookies. induction l as [|e r IH]; simpl; [reflexivity|].
+  rewrite in_insert_cookie, IH. split; intros [H|H]; auto.
+Qed.
+
+Lemma cookies_ok_join pl base :
+  p_cookies pl <> [] -> cookies_ok pl [join_cookies base (sort_cookies (p_cookies pl))] = true.
+Proof.
+  intros _. unfold cookies_ok. apply forallb_forall. intros c Hc.
+  apply join_cookies_contains. apply in_sort_cookies. exact Hc.
+Qed.
+
+Lemma extended_by_append ok old e : ok e = true -> extended_by ok old (append_peer old e) = true.
+Proof.
+  intro H. unfold extended_by, append_peer. destruct (is_empty old) eqn:E; [exact H|].
+  rewrite <- append_assoc. rewrite cut_prefix_of_app. exact H.
+Qed.
+
+Lemma join_empty_first vs : join_with ", " vs = "" -> first_or_empty vs = "".
+Proof.
+  destruct vs as [|x [|y r]]; simpl; auto. intro H. destruct x; discriminate.
+Qed.
+
+Lemma joined_single k h : (2 <=? length (h_values k h))%nat = false -> h_joined k h = h_get k h.
+Proof.
+  unfold h_joined, h_get. destruct (h_values k h) as [|x [|y r]]; simpl; try reflexivity. discriminate.
+Qed.
+
+(** outside C15-F7 (or after its repair) the chain this implementation extends is the whole received chain *)
+Lemma chain_all al q :
+  al = true \/ guard_F7 q = false ->
+  forwarding_active al (in_headers q) = forwarding_active true (in_headers q) /\
+  (forwarding_active true (in_headers q) = true ->
+     chain al "X-Forwarded-For" (in_headers q) = h_joined "X-Forwarded-For" (in_headers q)) /\
+  (forwarding_active true (in_headers q) = false ->
+     chain al "Forwarded" (in_headers q) = h_joined "Forwarded" (in_headers q)).
+Proof.
+  intros [H|H]; [subst al; repeat split; reflexivity|].
+  destruct al; [repeat split; reflexivity|].
+  unfold guard_F7 in H. set (hin := in_headers q) in *.
+  destruct (forwarding_active true hin) eqn:Ea.
+  - pose proof (joined_single _ _ H) as Hj. unfold forwarding_active, chain in *. rewrite <- Hj.
+    repeat split; auto. discriminate.
+  - pose proof (joined_single _ _ H) as Hj. repeat split; try discriminate.
+    + unfold forwarding_active, chain in *.
+      apply orb_false_iff in Ea as [Ea E3]. apply orb_false_iff in Ea as [E1 E2]. rewrite E2, E3.
+      apply negb_false_iff in E1.
+      assert (Hg : h_get "X-Forwarded-For" hin = "").
+      { unfold h_joined in E1. unfold h_get. fold (first_or_empty (h_values "X-Forwarded-For" hin)).
+        apply join_empty_first. destruct (join_with ", " (h_values "X-Forwarded-For" hin)); [reflexivity | discriminate]. }
+      rewrite Hg. reflexivity.
+    + intros _. unfold chain. symmetry. exact Hj.
+Qed.
+
+Lemma names_peer_element peer host proto :
+  names_peer peer ("for=" ++ peer ++ ";host=" ++ host ++ ";proto=" ++ proto) = true.
+Proof.
+  unfold names_peer. rewrite <- (append_assoc "for=" peer). rewrite contains_here. reflexivity.
+Qed.
+
+Lemma not_forwarding_value al q k : is_forwarding_name k = false -> forwarding_value al q k = None.
+Proof.
+  intro H. destruct (forwarding_value al q k) eqn:E; [|reflexivity].
+  apply forwarding_value_name in E. congruence.
+Qed.
+
+(** what Go's HTTP client makes of the values [vs] heimdall hands over for [k]; [b]: it adds gzip *)
+Definition tv (b : bool) (k : string) (vs : list string) : list string :=
+  if String.eqb k "User-Agent" then (if is_empty (first_or_empty vs) then [] else [first_or_empty vs])
+  else if String.eqb k "Accept-Encoding" then (if b then (vs ++ ["gzip"])%list else vs)
+  else vs.
+
+Lemma expected_values_shape all pf al q pl m k :
+  exists b, expected_values all pf al q pl m k = tv b k (handed_over all pf al q pl k).
+Proof.
+  unfold expected_values, tv. destruct (String.eqb k "User-Agent"); [exists false; reflexivity|].
+  destruct (String.eqb k "Accept-Encoding") eqn:E; [|exists false; reflexivity].
+  apply String.eqb_eq in E. subst k. eexists. reflexivity.
+Qed.
+
+Lemma tv_clause_ae b vs : ae_ok vs (tv b "Accept-Encoding" vs) = true.
+Proof. unfold tv, ae_ok. simpl. destruct b; rewrite leq_refl; [apply orb_true_r | reflexivity]. Qed.
+
+Lemma tv_clause_ua b vs : ua_ok vs (tv b "User-Agent" vs) = true.
+Proof.
+  unfold tv, ua_ok. simpl. destruct vs as [|v r]; [reflexivity|]. cbn [first_or_empty firstn].
+  destruct (is_empty v).
+  - cbn. rewrite ?orb_true_r. reflexivity.
+  - rewrite (leq_refl [v]). rewrite orb_true_r. reflexivity.
+Qed.
+
+Lemma tv_other b k vs : String.eqb k "User-Agent" = false -> String.eqb k "Accept-Encoding" = false -> tv b k vs = vs.
+Proof. intros H1 H2. unfold tv. rewrite H1, H2. reflexivity. Qed.
+
+(** what the model puts on the wire satisfies the sentence about every field name *)
+Lemma hdr_clause_handed al q pl tracing b k :
+  al = true \/ guard_F7 q = false ->
+  hdr_clause q pl tracing k (tv b k (handed_over true true al q pl k)) = true.
+Proof.
+  intro H7. destruct (chain_all al q H7) as (Hact & Hx & Hf).
+  unfold hdr_clause, handed_over. unfold pipeline_values.
+  set (hin := in_headers q) in *. set (pvs := line_values k (p_headers pl)).
+  destruct (is_nil pvs) eqn:Epv; cbn [negb].
+  - (* the pipeline did not produce k *)
+    destruct (never_passed k) eqn:Enp.
+    { assert (Hnf : is_forwarding_name k = false).
+      { unfold never_passed, is_forwarding_name, mem_str in *. simpl in *.
+        destruct (String.eqb k "X-Forwarded-Method") eqn:E1; [apply String.eqb_eq in E1; subst k; reflexivity|].
+        destruct (String.eqb k "X-Forwarded-Uri") eqn:E2; [apply String.eqb_eq in E2; subst k; reflexivity|].
+        destruct (String.eqb k "X-Forwarded-Path") eqn:E3; [apply String.eqb_eq in E3; subst k; reflexivity|].
+        discriminate. }
+      rewrite (not_forwarding_value al q k Hnf). unfold passed_on. rewrite Enp. cbn [orb].
+      assert (Hc : String.eqb k "Cookie" = false).
+      { destruct (String.eqb k "Cookie") eqn:E; [apply String.eqb_eq in E; subst k; discriminate | reflexivity]. }
+      assert (Hu : String.eqb k "User-Agent" = false).
+      { destruct (String.eqb k "User-Agent") eqn:E; [apply String.eqb_eq in E; subst k; discriminate | reflexivity]. }
+      assert (Ha : String.eqb k "Accept-Encoding" = false).
+      { destruct (String.eqb k "Accept-Encoding") eqn:E; [apply String.eqb_eq in E; subst k; discriminate | reflexivity]. }
+      rewrite Hc. cbn [andb]. rewrite tv_other by assumption. reflexivity. }
+    destruct (String.eqb k "X-Forwarded-For") eqn:Exff.
+    { apply String.eqb_eq in Exff. subst k. cbn [String.eqb Ascii.eqb Bool.eqb andb]. rewrite tv_other by reflexivity.
+      unfold forwarding_value. fold hin. rewrite Hact.
+      destruct (forwarding_active true hin) eqn:Ea; [|reflexivity].
+      cbn [String.eqb Ascii.eqb Bool.eqb]. rewrite (Hx eq_refl).
+      apply extended_by_append. apply String.eqb_refl. }
+    destruct (String.eqb k "Forwarded") eqn:Efw.
+    { apply String.eqb_eq in Efw. subst k. cbn [String.eqb Ascii.eqb Bool.eqb andb]. rewrite tv_other by reflexivity.
+      unfold forwarding_value. fold hin. rewrite Hact.
+      destruct (forwarding_active true hin) eqn:Ea; [reflexivity|].
+      cbn [String.eqb Ascii.eqb Bool.eqb]. rewrite (Hf eq_refl).
+      apply extended_by_append. apply names_peer_element. }
+    destruct (is_forwarding_name k || hop_by_hop hin k) eqn:Efh; [reflexivity|].
+    apply orb_false_iff in Efh as [Efn Ehop].
+    destruct (tracing && mem_str k propagation_names); [reflexivity|].
+    rewrite (not_forwarding_value al q k Efn).
+    assert (Hpo : passed_on hin k = h_values k hin).
+    { unfold passed_on. rewrite Enp, Efn, Ehop. reflexivity. }
+    rewrite Hpo.
+    destruct (String.eqb k "Cookie" && negb (is_nil (p_cookies pl))) eqn:Eck.
+    { apply andb_true_iff in Eck as [Ec Ecn]. apply String.eqb_eq in Ec. subst k.
+      rewrite tv_other by reflexivity. apply cookies_ok_join. destruct (p_cookies pl); discriminate. }
+    destruct (h_has k hin) eqn:Eh; cbn [negb]; [|reflexivity].
+    destruct (String.eqb k "Accept-Encoding") eqn:Eae.
+    { apply String.eqb_eq in Eae. subst k. apply tv_clause_ae. }
+    destruct (String.eqb k "User-Agent") eqn:Eua.
+    { apply String.eqb_eq in Eua. subst k. apply tv_clause_ua. }
+    rewrite tv_other by assumption. apply leq_refl.
+  - (* the pipeline produced k: exactly its values *)
+    assert (Hbase : match forwarding_value al q k with
+                    | Some v => if true && true then pvs else [v]
+                    | None => pvs
+                    end = pvs) by (destruct (forwarding_value al q k); reflexivity).
+    rewrite Hbase.
+    destruct (String.eqb k "Cookie" && negb (is_nil (p_cookies pl))) eqn:Eck.
+    { apply andb_true_iff in Eck as [Ec Ecn]. apply String.eqb_eq in Ec. subst k.
+      rewrite tv_other by reflexivity. apply cookies_ok_join. destruct (p_cookies pl); discriminate. }
+    destruct (String.eqb k "Accept-Encoding") eqn:Eae.
+    { apply String.eqb_eq in Eae. subst k. apply tv_clause_ae. }
+    destruct (String.eqb k "User-Agent") eqn:Eua.
+    { apply String.eqb_eq in Eua. subst k. apply tv_clause_ua. }
+    rewrite tv_other by assumption. apply leq_refl.
+Qed.
+
+Lemma hdr_clause_expected al q pl tracing m k :
+  al = true \/ guard_F7 q = false ->
+  hdr_clause q pl tracing k (expected_values true true al q pl m k) = true.
+Proof.
+  intro H. destruct (expected_values_shape true true al q pl m k) as [b Hb]. rewrite Hb.
+  apply hdr_clause_handed. exact H.
 Qed.
 
 Lemma expected_path_valid r u : view_wf u -> u_path u <> "*" ->
@@ -225,30 +473,40 @@ Proof.
   rewrite <- (renorm_escape _ _ Hu (Hs eq_refl)). apply escape_valid.
 Qed.
 
-Theorem spec_holds q pl r :
+(** THE WHOLE STATEMENT.  [fx]: a tree with the repairs of C08-F2, C13-F3, C15-F1
+    and C15-F4 (all in /repo) and possibly those of C15-F6 / C15-F7.  For every
+    request, pipeline output and rule on which none of the open findings shows,
+    what is forwarded — or that nothing is — satisfies every sentence of the
+    property.  (C15-F8 concerns the tracing instrumentation, which is outside the
+    model; the hypothesis is listed to say so.) *)
+Theorem spec_holds fx q pl r :
+  fx_c08f2 fx = true -> fx_c13f3 fx = true -> fx_f1 fx = true -> fx_f4 fx = true ->
   oracle_ok q = true ->
   guard_F2 q = false -> guard_F3 q r = false -> guard_F5 r = false ->
-  spec_ok q pl r (serve repaired q pl r) = true.
+  fx_f6 fx = true \/ guard_F6 q r = false ->
+  fx_f7 fx = true \/ guard_F7 q = false ->
+  guard_F8 pl r = false ->
+  spec_ok q pl r (serve fx q pl r) = true.
 Proof.
-  intros Ho G2 G3 G5. unfold spec_ok. destruct (view_url q) as [u|] eqn:Hv.
+  intros F08 F13 F1 F4 Ho G2 G3 G5 G6 G7 _. unfold spec_ok. destruct (view_url q) as [u|] eqn:Hv.
   2:{ unfold serve. rewrite Hv. reflexivity. }
   pose proof (view_url_wf q u Ho Hv) as Hwf.
   unfold guard_F5 in G5. apply negb_false_iff in G5. apply andb_true_iff in G5 as [Hva Hwa].
-  destruct (serve repaired q pl r) as [st|tls m uri host hs body] eqn:Hs.
+  destruct (serve fx q pl r) as [st|tls m uri host hs body] eqn:Hs.
   - (* nothing forwarded: refused because of an encoded slash, or the scheme cannot be used *)
-    unfold serve in Hs. rewrite Hv in Hs. destruct (execute repaired r u) as [t|] eqn:He.
-    +       pose proof (scheme_rewritten _ _ _ _ He) as Hsc. rewrite Hsc in Hs. unfold scheme_usable.
+    unfold serve in Hs. rewrite Hv in Hs. destruct (execute fx r u) as [t|] eqn:He.
+    + pose proof (scheme_rewritten _ _ _ _ He) as Hsc. rewrite Hsc in Hs. unfold scheme_usable.
       destruct (String.eqb (expected_scheme r u) "http") eqn:E1;
         destruct (String.eqb (expected_scheme r u) "https") eqn:E2; cbn [orb negb] in Hs.
       * apply String.eqb_eq in E1. apply String.eqb_eq in E2. congruence.
       * destruct (r_up_tls r); cbn [Bool.eqb negb] in Hs.
         -- cbn [negb]. apply orb_true_r.
-        -- destruct (rewrite_request repaired q pl (u_host t)); discriminate.
+        -- destruct (rewrite_request fx q pl (u_host t)); discriminate.
       * destruct (r_up_tls r); cbn [Bool.eqb negb] in Hs.
-        -- destruct (rewrite_request repaired q pl (u_host t)); discriminate.
+        -- destruct (rewrite_request fx q pl (u_host t)); discriminate.
         -- cbn [negb]. apply orb_true_r.
       * destruct (r_up_tls r); cbn [negb]; apply orb_true_r.
-    + rewrite (execute_none _ _ _ He eq_refl). reflexivity.
+    + rewrite (execute_none _ _ _ He F08). reflexivity.
   - destruct (serve_forwarded _ _ _ _ _ _ _ _ _ _ Hs) as (u' & t & Hv' & He & Hsch & Htls & Hup & Hm & Huri & Hh & Hhs & Hb).
     rewrite Hv in Hv'. inversion Hv'; subst u'; clear Hv'.
     pose proof (scheme_rewritten _ _ _ _ He) as Hsc.
@@ -260,9 +518,9 @@ Proof.
       splits; auto. apply String.eqb_neq. exact G3c. }
     assert (Hpath : wire_path t = expected_path r u).
     { destruct (r_setting r) eqn:Est.
-      - apply (wire_path_exact repaired); auto. congruence.
-      - destruct (Hstar eq_refl) as (H1 & H2 & H3). apply (wire_path_on repaired); auto.
-      - apply (wire_path_exact repaired); auto. congruence. }
+      - apply (wire_path_exact fx); auto. congruence.
+      - destruct (Hstar eq_refl) as (H1 & H2 & H3). apply (wire_path_on fx); auto.
+      - apply (wire_path_exact fx); auto. congruence. }
     assert (Hpv : valid_encoded (expected_path r u) = true).
     { destruct (r_setting r) eqn:Est.
       - destruct Hwf as (Hne & Hv1 & Hu1). unfold expected_path, original_path. rewrite Est, valid_encoded_app, Hva.
@@ -274,23 +532,24 @@ Proof.
     assert (HP : mem_ascii "?" P = false).
     { unfold P. destruct (is_empty (expected_path r u)); [reflexivity | apply valid_no_qmark; exact Hpv]. }
     set (q' := match b_rw (r_backend r) with
-               | Some rw => remove_from_fx true (rw_strip_q rw) (u_query u)
+               | Some rw => remove_from_q (fx_q fx) (rw_strip_q rw) (u_query u)
                | None => u_query u
                end).
     assert (Hcut : cut_on "?" uri = (P, q')).
-    { subst uri. rewrite (request_line _ _ _ _ He). rewrite Hpath. fold P. cbv zeta. cbn [fx_f1 repaired]. fold q'.
+    { subst uri. rewrite (request_line _ _ _ _ He). rewrite Hpath. fold P. cbv zeta. fold q'.
       destruct (is_empty q') eqn:Eq.
       - rewrite append_nil_r. rewrite cut_on_no_sep by exact HP. destruct q'; [reflexivity | discriminate].
       - apply cut_on_app_no_sep. exact HP. }
     rewrite Hcut.
-    assert (Hq : query_removed (cfg_strip_query r) (u_query u) q' = true).
-    { unfold q', cfg_strip_query. destruct (b_rw (r_backend r)) as [rw|].
-      - apply query_removed_holds.
-      - unfold query_removed. simpl. apply String.eqb_refl. }
+    assert (Hq : query_clause (cfg_strip_query r) (u_query u) q' = true).
+    { unfold q', cfg_strip_query. destruct (b_rw (r_backend r)) as [rw|] eqn:Erw.
+      - apply query_clause_holds; [exact F1|]. cbn [fx_q qf6]. destruct G6 as [G6|G6]; [left; exact G6|right].
+        unfold guard_F6 in G6. rewrite Hv in G6. unfold cfg_strip_query in G6. rewrite Erw in G6. exact G6.
+      - unfold query_clause. simpl. apply String.eqb_refl. }
     assert (Husable : scheme_usable r u = true).
     { unfold scheme_usable. rewrite <- Hsc. rewrite <- Hup, Htls.
       destruct Hsch as [E|E]; rewrite E; reflexivity. }
-    rewrite (execute_some _ _ _ _ He eq_refl), Husable, Hq. cbn [negb andb].
+    rewrite (execute_some _ _ _ _ He F08), Husable, Hq. cbn [negb andb].
     rewrite Htls, Hsc, Bool.eqb_reflx. fold P. rewrite String.eqb_refl. cbn [andb].
     assert (Hmeth : m = q_method q).
     { subst m. unfold guard_F2 in G2. apply negb_false_iff in G2. apply String.eqb_eq in G2. exact G2. }
@@ -299,10 +558,24 @@ Proof.
     (* headers *)
     unfold headers_ok. apply forallb_forall. intros k _.
     destruct (String.eqb k "Host") eqn:Ek; [reflexivity|]. simpl.
-    rewrite <- Hmeth.
     rewrite (serve_headers _ _ _ _ _ _ _ _ _ _ k Hs) by (apply String.eqb_neq; exact Ek).
-    apply list_eqb_refl.
+    rewrite F13, F4. apply hdr_clause_expected.
+    destruct G7 as [G7|G7]; [left | right]; exact G7.
 Qed.
+
+(** the tree as it is now, and with the two repair candidates *)
+Corollary spec_holds_repaired q pl r :
+  oracle_ok q = true ->
+  guard_F2 q = false -> guard_F3 q r = false -> guard_F5 r = false ->
+  guard_F6 q r = false -> guard_F7 q = false -> guard_F8 pl r = false ->
+  spec_ok q pl r (serve repaired q pl r) = true.
+Proof. intros. apply spec_holds; auto. Qed.
+
+Corollary spec_holds_repaired2 q pl r :
+  oracle_ok q = true ->
+  guard_F2 q = false -> guard_F3 q r = false -> guard_F5 r = false -> guard_F8 pl r = false ->
+  spec_ok q pl r (serve repaired2 q pl r) = true.
+Proof. intros. apply spec_holds; auto. Qed.
 
 (** * "in any casing": the canonical key of a field name ignores ASCII case *)
 
